@@ -4,6 +4,7 @@ CONSTANTS
   N = 4
   Cap = 16
   Kinds <- KindsVDDV
+  Script <- ScriptNone
   GenK = 1
 VIEW View
 INVARIANT Inv_NoLostWake
